@@ -6,6 +6,7 @@ import (
 	"bytes"
 	"fmt"
 	"net/http"
+	"strconv"
 	"strings"
 	"testing"
 	"time"
@@ -119,6 +120,21 @@ func hcTameNet(sc *hcScenario) {
 	}
 }
 
+// hcGenKill: now and then the backend closes the kept-alive connection a request
+// arrives on without answering (an idle connection the backend had given up). The
+// gateway's HTTP client re-sends a request on a new connection when it considers
+// it replayable (no body or a rewindable one, and an idempotent method or an
+// Idempotency-Key header), otherwise the call fails.
+func hcGenKill(rng *sim.Rand, ex *hcExchange) {
+	if !rng.Bool(0.07) || ex.FailFirst > 0 || ex.RReset || ex.RShort > 0 || ex.ReqShort > 0 || ex.Expect100 {
+		return
+	}
+	ex.BKill = true
+	if rng.Bool(0.6) {
+		ex.Hdr = append(ex.Hdr, [2]string{"Idempotency-Key", "k1"})
+	}
+}
+
 func hcGenC03(rng *sim.Rand, tier string) interface{} {
 	sc := &hcScenario{Prop: "C03", Compress: -1}
 	sc.ByHost = rng.Bool(0.5)
@@ -182,6 +198,7 @@ func hcGenC03(rng *sim.Rand, tier string) interface{} {
 			if sc.Mirror != "" && rng.Bool(0.7) {
 				ex.Hdr = append(ex.Hdr, [2]string{"X-Mirror", "1"})
 			}
+			hcGenKill(rng, &ex)
 			cl.Ex = append(cl.Ex, ex)
 		}
 		sc.Clients = append(sc.Clients, cl)
@@ -215,6 +232,10 @@ func hcGenC07(rng *sim.Rand, tier string) interface{} {
 		if rng.Bool(0.2) {
 			sc.PoolTimeout = rng.PickStr("1h", "2h")
 		}
+		// pool memory cache: a cached answer is delivered without a backend call; it
+		// is a delivered backend response like any other and must respect the limit
+		// in force when it is delivered (also after a hot update of the limits)
+		sc.MemCache = rng.Bool(0.15)
 	}
 	reqLimOf := func(l hcLimits, path string, small bool) int64 {
 		if sc.SplitPaths && (path != "/up" || (sc.HdrPath && !small)) {
@@ -224,7 +245,8 @@ func hcGenC07(rng *sim.Rand, tier string) interface{} {
 	}
 	first := hcLimits{sc.SrvMax, sc.PathMax, sc.PoolMax, sc.ProxyMax}
 	if hcEffective(sc.PathMax, sc.SrvMax) < 0 && hcEffective(0, sc.SrvMax) < 0 && sc.Mirror == "" && rng.Bool(0.4) {
-		sc.Retry = 2 // a streamed body must pass intact, i.e. never be re-sent by a retry
+		sc.Retry = 2        // a streamed body must pass intact, i.e. never be re-sent by a retry
+		sc.MemCache = false // (the retry rules count backend sightings)
 	}
 	around := func(lim int64) int {
 		if lim < 0 {
@@ -306,6 +328,7 @@ func hcGenC07(rng *sim.Rand, tier string) interface{} {
 					}
 					ex.NewConn = true
 				}
+				hcGenKill(rng, &ex)
 				cl.Ex = append(cl.Ex, ex)
 			}
 			out = append(out, cl)
@@ -412,6 +435,20 @@ func hcExec(r *sim.Run, sci interface{}) {
 	if n >= 2 {
 		r.Nontrivial()
 	}
+}
+
+// cacheable: some other exchange with the same cache key (method, path) reached
+// the backend and was answered with a cacheable status.
+func (c *hcChain) cacheable(id string, ex *hcExchange) bool {
+	for oid, o := range c.script {
+		if oid == id || o.Method != ex.Method || o.Path != ex.Path || (o.Status != 200 && o.Status != 201) {
+			continue
+		}
+		if os := c.seen[oid]; os != nil && os.count > 0 {
+			return true
+		}
+	}
+	return false
 }
 
 // hcValid keeps the minimiser inside the space the generators draw from.
@@ -565,6 +602,20 @@ func (c *hcChain) checkC03(id string, ex *hcExchange, res *hcResp) {
 		return
 	}
 	// ---- request side
+	if kb, killed := c.killed[id]; killed {
+		// the backend closed a reused connection under this request without answering
+		r.Probe("c03.backend_closed_reused_connection_under_request")
+		_ = kb
+		if (seen == nil || seen.count == 0) && res.status/100 == 5 {
+			r.Probe("c03.request_on_closed_connection_failed")
+			return // not sent again: the call failed, nothing was forwarded
+		}
+		if seen != nil && seen.count > 0 {
+			r.Probe("c03.request_on_closed_connection_sent_again")
+		}
+		// sent again (or answered otherwise): judged like any other exchange; what
+		// reached the backend the second time must be the client's request
+	}
 	if (seen == nil || seen.count == 0) && c.sc.MemCache && (ex.Method == "GET" || ex.Method == "POST") {
 		// served from the pool's memory cache: the response must be the one an
 		// earlier exchange with the same cache key got from the backend
@@ -771,6 +822,17 @@ func (c *hcChain) checkC03(id string, ex *hcExchange, res *hcResp) {
 		if len(res.body) != 0 {
 			r.Violate("C03.resp.body/"+c.facts(ex), "%s: status %d must not carry a body, client got %d bytes\n%s", id, ex.Status, len(res.body), desc)
 		}
+		// The answer to a HEAD request has no body, its Content-Length is an
+		// end-to-end header like any other: the length the backend declared for the
+		// resource must reach the client when nothing in the chain rewrites bodies.
+		if ex.Method == "HEAD" && ex.Status/100 == 2 && ex.Status != 204 && !ex.RChunked && !ex.RCloseDelim && !ex.RGzip &&
+			c.sc.Compress < 0 && c.sc.RespAdaptor == "" && !c.sc.MemCache {
+			r.Probe("c03.head_response_content_length_compared")
+			want := strconv.Itoa(ex.RBodyLen)
+			if got := res.hdr.Get("Content-Length"); got != want {
+				r.Violate("C03.resp.head-content-length", "%s: HEAD: the backend declared Content-Length %s, the client was sent %q\n%s", id, want, got, desc)
+			}
+		}
 		return
 	}
 	got, derr := hcDecode(res.body, res.hdr)
@@ -949,8 +1011,27 @@ func (c *hcChain) checkC07(id string, ex *hcExchange, res *hcResp) {
 		}
 		if seen != nil && seen.count > 0 {
 			r.Violate("C07.req.over-limit-forwarded", "%s: request body %d > limit %d but the backend saw the request (%d body bytes)\n%s", id, ex.BodyLen, reqLim, len(seen.body), desc)
+		} else if kb, killed := c.killed[id]; killed {
+			r.Violate("C07.req.over-limit-forwarded", "%s: request body %d > limit %d but the backend saw the request (%d body bytes, on a connection it then closed)\n%s", id, ex.BodyLen, reqLim, len(kb), desc)
 		}
 		return
+	}
+	if kb, killed := c.killed[id]; killed {
+		// the backend closed a reused connection under this request without answering:
+		// the gateway either fails the call or sends the request again; what the
+		// backend was handed - both times - must be the intact body
+		r.Probe("c07.backend_closed_reused_connection_under_request")
+		if !bytes.Equal(kb, plain) {
+			r.Violate("C07.req.body-not-intact", "%s: backend saw body %s want %s (on the connection it then closed)\n%s", id, hcShort(kb), hcShort(plain), desc)
+			return
+		}
+		if (seen == nil || seen.count == 0) && res.status/100 == 5 {
+			r.Probe("c07.request_on_closed_connection_failed")
+			return
+		}
+		if seen != nil && seen.count > 0 {
+			r.Probe("c07.request_on_closed_connection_sent_again")
+		}
 	}
 	if int64(ex.BodyLen) == reqLim {
 		r.Probe("c07.request_exactly_at_limit")
@@ -975,6 +1056,21 @@ func (c *hcChain) checkC07(id string, ex *hcExchange, res *hcResp) {
 	}
 	if res.status == 413 {
 		r.Violate("C07.req.within-limit-413", "%s: request body %d <= limit %d answered 413\n%s", id, ex.BodyLen, reqLim, desc)
+		return
+	}
+	if (seen == nil || seen.count == 0) && c.sc.MemCache && (ex.Method == "GET" || ex.Method == "POST") && c.cacheable(id, ex) {
+		// served from the pool's memory cache (C03 decides whose answer it may be)
+		r.Probe("c07.served_from_memory_cache")
+		if c.gen > 0 {
+			r.Probe("c07.served_from_memory_cache_after_hot_update")
+		}
+		size := len(res.body)
+		if d, err := hcDecode(res.body, res.hdr); err == nil && len(d) < size {
+			size = len(d)
+		}
+		if respLim >= 0 && res.status/100 == 2 && int64(size) > respLim {
+			r.Violate("C07.resp.over-limit-delivered", "%s: answered from the memory cache with a body of %d bytes > serverMaxBodySize %d in force (status %d)\n%s", id, size, respLim, res.status, desc)
+		}
 		return
 	}
 	if seen == nil || seen.count == 0 {
@@ -1064,6 +1160,7 @@ var hcReal = []string{"net/http.Server + pkg/object/httpserver mux (serveHTTP, s
 var hcStub = []string{"network: simnet (segmentation, latency, reset)", "clients: raw HTTP/1.1 writer + strict response parser", "backend: scripted handler on a real net/http server (hijacks the socket to lie about lengths)"}
 
 func TestVerifC03(t *testing.T) {
+	hdrv.BeforeGC = proxy.HCRelease
 	hdrv.Main(t, &hdrv.Harness{
 		ID: "C03", Gen: hcGenC03, New: func() interface{} { return &hcScenario{} }, Exec: hcExec, MaxSteps: 400000,
 		Rule: "scenario = chain configuration (IP/host-name server, keepHost, compression minLength, Request/ResponseAdaptor, buffered/stream limits, per-direction segmentation and latency) + 1-3 raw clients x 1-4 exchanges (method, path, query, header sets incl. hop-by-hop and Connection tokens, bodies declared/chunked, backend status/headers/body declared/chunked/gzip, backend reset mid-body, gzip-labelled bodies that are cut short or carry a wrong CRC) + optionally retry policy, pool memory cache, a mirror pool whose backend is healthy/slow/resetting/answering big/down, servers delivered by the service registry; methods include HEAD; " +
@@ -1075,6 +1172,7 @@ func TestVerifC03(t *testing.T) {
 }
 
 func TestVerifC07(t *testing.T) {
+	hdrv.BeforeGC = proxy.HCRelease
 	hdrv.Main(t, &hdrv.Harness{
 		ID: "C07", Gen: hcGenC07, New: func() interface{} { return &hcScenario{} }, Exec: hcExec, MaxSteps: 400000,
 		Rule: "scenario = clientMaxBodySize at server/path level and serverMaxBodySize at proxy/pool level drawn from {0,-1,1,10,100,1000,4096}, route cache sizes {0,1,2,50}, one or two path rules (path-level limit on /up only), optionally a hot update of all four limits between two rounds of exchanges (new Pipeline generation inherits, mux reloads; second round also sits around the old limits) + exchanges whose request and response body sizes sit on and around the effective limits (declared or chunked; backend declaring more than it sends), per-direction segmentation/latency; " +
